@@ -141,8 +141,15 @@ pub fn replay(path: &str) {
                 let tags = u64s(&c["tags"]);
                 let lens = u64s(&c["lens"]);
                 let hdr = if tags.len() < 2 { 4 + 4 * tags.len() } else { 8 * tags.len() };
+                let cleared = c["cleared"].as_bool().unwrap_or(false);
                 let r = guarded(|| {
                     let mut m = RtMessage::with_capacity(tags.len() as u32);
+                    if cleared {
+                        // the object held another message before and was clear()ed
+                        for r in (1..=18u64).step_by(2) { let _ = m.add_field(tag_of_rank(r), &[r as u8; 8]); }
+                        m.clear();
+                        if m.num_fields() != 0 { return Err("num_fields not 0 after clear".to_string()); }
+                    }
                     let mut pos = hdr;
                     for (k, r) in tags.iter().enumerate() {
                         let l = lens[k] as usize * 4;
@@ -156,6 +163,15 @@ pub fn replay(path: &str) {
                         }
                     }
                     if m.num_fields() as usize != tags.len() { return Err("num_fields wrong".to_string()); }
+                    // the read accessors agree with what was added
+                    if m.encoded_size() != bytes.len() && !(tags.is_empty() && m.encoded_size() == 4) { return Err(format!("encoded_size {} != {}", m.encoded_size(), bytes.len())); }
+                    let mut p2 = hdr;
+                    for (k, r) in tags.iter().enumerate() {
+                        let l = lens[k] as usize * 4;
+                        if m.get_field(tag_of_rank(*r)) != Some(&bytes[p2..p2 + l]) { return Err(format!("get_field differs for tag rank {}", r)); }
+                        p2 += l;
+                    }
+                    for r in 1..=18u64 { if !tags.contains(&r) && m.get_field(tag_of_rank(r)).is_some() { return Err(format!("get_field invents tag rank {}", r)); } }
                     match m.encode() {
                         Ok(e) if e == bytes => Ok(()),
                         Ok(_) => Err("encode() differs from specification encoding".to_string()),
@@ -214,6 +230,7 @@ fn random_api_message(rng: &mut Rng, max_total_words: usize) -> Result<(Vec<u8>,
         budget -= l;
         lens.push(l as u64);
     }
+    let rng_bit = rng.chance(1, 2);
     let mut vals: Vec<Vec<u8>> = Vec::new();
     for (k, _) in tags.iter().enumerate() {
         // values that look like headers now and then, so that mutations move boundaries into them
@@ -226,13 +243,25 @@ fn random_api_message(rng: &mut Rng, max_total_words: usize) -> Result<(Vec<u8>,
     }
     // the code under test: a refusal or panic here is an observation, not a harness error
     let built = guarded(|| {
-        let mut m = RtMessage::with_capacity(nf as u32);
+        // every other message is built in a long-lived object that is clear()ed first (what it held before must not matter)
+        thread_local! { static REUSED: std::cell::RefCell<RtMessage> = std::cell::RefCell::new(RtMessage::with_capacity(4)); }
+        let reuse = rng_bit;
+        let mut fresh = RtMessage::with_capacity(nf as u32);
+        let mut taken = if reuse { REUSED.with(|r| std::mem::replace(&mut *r.borrow_mut(), RtMessage::with_capacity(1))) } else { RtMessage::with_capacity(1) };
+        let m: &mut RtMessage = if reuse { taken.clear(); &mut taken } else { &mut fresh };
         for (k, r) in tags.iter().enumerate() {
             if m.add_field(tag_of_rank(*r), &vals[k]).is_err() {
                 return Err(format!("add_field refused ascending tag rank {}", r));
             }
         }
-        m.encode().map_err(|_| "encode failed".to_string())
+        let out = m.encode().map_err(|_| "encode failed".to_string());
+        if let Ok(e) = &out {
+            if m.num_fields() as usize != nf { return Err("num_fields wrong".to_string()); }
+            if m.encoded_size() != e.len() && nf > 0 { return Err("encoded_size differs from encode().len()".to_string()); }
+            for (k, r) in tags.iter().enumerate() { if m.get_field(tag_of_rank(*r)) != Some(vals[k].as_slice()) { return Err("get_field differs".to_string()); } }
+        }
+        if reuse { REUSED.with(|r| *r.borrow_mut() = taken); }
+        out
     });
     match built {
         Ok(Ok(e)) => Ok((e, tags, lens)),
